@@ -234,6 +234,7 @@ def run_one(sc):
     # ------------------------------------------------------------------ construction (in the scripted order)
     def construct(k):
         c, p = cls(k), par(k)
+        dbg = bool(p.get("debug"))
         if c == "Gen":
             gaps = list(p["gaps"])
             sizes = list(p["sizes"])
@@ -257,7 +258,7 @@ def run_one(sc):
                 kw["finish"] = fin
             if p.get("d0", 0) or p.get("floats"):
                 kw["initial_delay"] = p.get("d0", 0)
-            el[k] = DistPacketGenerator(env, "g%d" % k, arrival, size, flow_id=p["flow"], **kw)
+            el[k] = DistPacketGenerator(env, "g%d" % k, arrival, size, flow_id=p["flow"], debug=dbg, **kw)
             gen_ev[k] = []
             gen_cfg[k] = dict(GS_CFG, role="gen", d0=p.get("d0", 0) * TS, gaps=[g * TS for g in gaps], sizes=sizes,
                               fin=(fin * TS if fin >= 0 else -1), flow=p["flow"], eid=k, nk=nk)
@@ -276,10 +277,10 @@ def run_one(sc):
             netlib.injector(env, rec, p["arr"], make_packet, Target(), lambda i, a, pkt: None)
         elif c == "Port":
             ql = None if p["mode"] == 0 else p["qlimit"]
-            el[k] = Port(env, rate_of(p["K"]), ql, p["mode"] == 1, "n%d" % k)
+            el[k] = Port(env, rate_of(p["K"]), ql, p["mode"] == 1, "n%d" % k, debug=dbg)
         elif c == "REDPort":
             el[k] = REDPort(env, rate_of(p["K"]), p["maxth"], p["minth"], p["pn"] / p["pd"], "n%d" % k, p["qlimit"],
-                            weight_factor=p["w"], limit_bytes=(p["mode"] == 1))
+                            weight_factor=p["w"], limit_bytes=(p["mode"] == 1), debug=dbg)
             red_draws.seq[k] = p.get("us") or [[1, 2]]
         elif c == "Wire":
             dl = list(p.get("dl") or [1])
@@ -291,27 +292,29 @@ def run_one(sc):
                 return d
 
             loss = p.get("loss")
-            el[k] = Wire(env, delay, None if not loss else loss[0] / loss[1], wire_id=k)
+            el[k] = Wire(env, delay, None if not loss else loss[0] / loss[1], wire_id=k, debug=dbg)
             wire_draws.seq[k] = p.get("us") or [[1, 2]]
         elif c == "TokenBucket":
-            el[k] = TokenBucket(env, 8 * p["R"], p["B"], peak=(8 * p["P"] if p.get("P") else None))
+            el[k] = TokenBucket(env, 8 * p["R"], p["B"], peak=(8 * p["P"] if p.get("P") else None), debug=dbg)
         elif c == "TwoRateTokenBucket":
             if p.get("PIR"):
-                el[k] = TwoRateTokenBucket(env, 8 * p["CIR"], p["CBS"], 8 * p["PIR"], p["PBS"])
+                el[k] = TwoRateTokenBucket(env, 8 * p["CIR"], p["CBS"], 8 * p["PIR"], p["PBS"], debug=dbg)
             else:
-                el[k] = TwoRateTokenBucket(env, 8 * p["CIR"], p["CBS"])
+                el[k] = TwoRateTokenBucket(env, 8 * p["CIR"], p["CBS"], debug=dbg)
         elif c == "Sched":
             el[k] = sched_drv.build(env, p)
+            if dbg:
+                el[k].debug = True          # the public flag the constructors store
         elif c == "FlowDemux":
             el[k] = FlowDemux([], None)
         elif c == "FIBDemux":
             el[k] = FIBDemux(outs=[], fib={f: port - 1 for f, port in p["table"]})
         elif c == "SimplePacketSwitch":
-            el[k] = SimplePacketSwitch(env, p["nports"], 8.0 / p["K"], p["buffer"], element_id="sw%d" % k)
+            el[k] = SimplePacketSwitch(env, p["nports"], 8.0 / p["K"], p["buffer"], element_id="sw%d" % k, debug=dbg)
         elif c == "FairPacketSwitch":
             weights = {f: w for f, w in enumerate(p["w"])}
             el[k] = FairPacketSwitch(env, p["nports"], 8.0 / p["K"], p["buffer"], weights, p["server"],
-                                     element_id="sw%d" % k)
+                                     element_id="sw%d" % k, debug=dbg)
             el[k].demux.fib = {f: port - 1 for f, port in p["table"]}
         elif c == "Splitter":
             el[k] = Splitter()
@@ -322,7 +325,7 @@ def run_one(sc):
                   "byflow": p.get("byflow", 1)}
             sink_cfg[k] = cf
             el[k] = PacketSink(env, rec_arrivals=bool(cf["recarr"]), absolute_arrivals=bool(cf["abs"]),
-                               rec_waits=bool(cf["recwait"]), rec_flow_ids=bool(cf["byflow"]))
+                               rec_waits=bool(cf["recwait"]), rec_flow_ids=bool(cf["byflow"]), debug=dbg)
             sink_ev[k] = []
         else:
             raise SystemExit("unknown node class %r" % c)
